@@ -283,7 +283,7 @@ func (s *Sched) enabled() []transition {
 			ts = append(ts, transition{t.name + ": continue", func() {}, []*task{t}, []string{"task:" + t.name}})
 		case opShared:
 			// an access to memory that other tasks access as well (sync/atomic): never independent of another one
-			ts = append(ts, transition{t.name + ": after atomic access", func() {}, []*task{t}, []string{"task:" + t.name, "shared-memory"}})
+			ts = append(ts, transition{t.name + ": atomic access", func() {}, []*task{t}, []string{"task:" + t.name, "shared-memory"}})
 		}
 	}
 	// a transition that completes a select also disables the select's other alternatives: it depends on
@@ -553,15 +553,15 @@ func (w *WaitGroup) Wait() {
 // Yield is an explicit choice point (used by harness tasks).
 func (s *Sched) Yield() { s.block(&op{kind: opYield}) }
 
-// Shared is a scheduling point after an access to memory that is shared between tasks (an operation of
-// sync/atomic): any other task may run before the caller goes on, and the explorers keep both orders of two
-// such points.
+// Shared is a scheduling point before an access to memory that is shared between tasks (an operation of
+// sync/atomic): any other task may run before the caller performs the access, and the explorers keep both orders
+// of two such points.
 func (s *Sched) Shared() { s.block(&op{kind: opShared}) }
 
-// Step returns v after a Shared scheduling point: the rewritten form of an atomic operation with a result.
-func Step[T any](s *Sched, v T) T {
+// Step performs op after a Shared scheduling point: the rewritten form of an atomic operation with a result.
+func Step[T any](s *Sched, op func() T) T {
 	s.Shared()
-	return v
+	return op()
 }
 
 // Explorer enumerates choice sequences depth-first.
